@@ -22,7 +22,7 @@ from ..oracles import outcome
 
 ID = 'C18'
 RULE = ("Hypothesis: subset of the seven sources x call-level form (callable, sequence with declining handlers first, mapping) x position of M "
-        "(direct field, List, Dict value, Optional, Tuple slot, outer-class field, top-level List) x direction (from_data, into_data). "
+        "(direct field, List, Dict value, Optional, Tuple slot, outer-class field, top-level List, inside a third-party generic container served by a registered handler) x direction (from_data, into_data). "
         "Observed: the label of the source that produced the value. Non-trivial = at least two sources present and M below the root; distinct by case.")
 ASSUMPTIONS = [
     "one process-wide dispatcher is registered with register_converter_handler at import and consults a per-case table, so global registration is not itself history",
@@ -66,19 +66,59 @@ def _label_conv(source: str) -> t.Any:
     return LabelConv()
 
 
+_BT = t.TypeVar('_BT')
+
+
+class Bag(t.Generic[_BT]):
+    """A third-party generic container pane knows nothing about: served by a *registered* handler, which (as the documentation of
+    handlers asks) builds its element converter with the handlers it was given, so that handlers of the call reach the elements."""
+
+    def __init__(self, items: t.Iterable[t.Any]):
+        self.items = list(items)
+
+    def __repr__(self) -> str:
+        return f"Bag({self.items!r})"
+
+
+def _bag_conv(elem: t.Any) -> t.Any:
+    from pane.converters import Converter
+    from pane.errors import ParseInterrupt, WrongTypeError, ProductErrorNode
+
+    class BagConv(Converter[t.Any]):
+        def expected(self, plural: bool = False) -> str:
+            return f"bag of {elem.expected(True)}"
+
+        def try_convert(self, val: t.Any) -> t.Any:
+            if not isinstance(val, (list, tuple)):
+                raise ParseInterrupt()
+            return Bag(elem.try_convert(x) for x in val)
+
+        def collect_errors(self, val: t.Any) -> t.Any:
+            if not isinstance(val, (list, tuple)):
+                return WrongTypeError(self.expected(), val)
+            bad = {i: e for (i, e) in ((i, elem.collect_errors(x)) for (i, x) in enumerate(val)) if e is not None}
+            return ProductErrorNode(self.expected(), bad, val) if bad else None
+
+        def into_data(self, val: t.Any) -> t.Any:
+            return [elem.into_data(x) for x in val.items]
+    return BagConv()
+
+
 def _ensure_global() -> None:
     if _REGISTERED[0]:
         return
-    from pane.convert import register_converter_handler
+    from pane.convert import register_converter_handler, make_converter
 
     def pv_global_dispatch(ty: t.Any, args: t.Any, *, handlers: t.Any) -> t.Any:
+        if ty is Bag and len(args) == 1:
+            return _bag_conv(make_converter(args[0], handlers))
         conv = GLOBAL_TABLE.get(ty)
         return conv if conv is not None and len(args) == 0 else NotImplemented
     register_converter_handler(pv_global_dispatch)
     _REGISTERED[0] = True
 
 
-POSITIONS = ['direct', 'List', 'Dict', 'Optional', 'Tuple', 'outer-field', 'top-List']
+POSITIONS = ['direct', 'List', 'Dict', 'Optional', 'Tuple', 'outer-field', 'top-List', 'Bag', 'Dict-of-Bag']
 FORMS = ['callable', 'sequence', 'sequence-declining', 'mapping']
 
 
@@ -133,10 +173,14 @@ def check(case: t.Any, ctx: Ctx) -> None:
         return {M: _label_conv(label)}
 
     wrap = {'direct': M, 'List': t.List[M], 'Dict': t.Dict[str, M], 'Optional': t.Optional[M], 'Tuple': t.Tuple[M, int],
-            'outer-field': M, 'top-List': t.List[M]}[pos]
-    wrap_data = {'direct': 7, 'List': [7], 'Dict': {'k': 7}, 'Optional': 7, 'Tuple': [7, 1], 'outer-field': 7, 'top-List': [7]}[pos]
+            'outer-field': M, 'top-List': t.List[M], 'Bag': Bag[M], 'Dict-of-Bag': t.Dict[str, Bag[M]]}[pos]  # type: ignore
+    wrap_data = {'direct': 7, 'List': [7], 'Dict': {'k': 7}, 'Optional': 7, 'Tuple': [7, 1], 'outer-field': 7, 'top-List': [7],
+                 'Bag': [7], 'Dict-of-Bag': {'k': [7]}}[pos]
 
     def unwrap(x: t.Any) -> t.Any:
+        if pos in ('Bag', 'Dict-of-Bag'):
+            b = x['k'] if pos == 'Dict-of-Bag' else x
+            return b.items[0] if isinstance(b, Bag) else b[0]
         if pos in ('List', 'Tuple', 'top-List'):
             return x[0]
         if pos == 'Dict':
@@ -232,7 +276,8 @@ def check(case: t.Any, ctx: Ctx) -> None:
         x: t.Any = [Labeled('x', 7)]
     else:
         inner_val: t.Any = {'direct': Labeled('x', 7), 'List': [Labeled('x', 7)], 'Dict': {'k': Labeled('x', 7)}, 'Optional': Labeled('x', 7),
-                            'Tuple': (Labeled('x', 7), 1), 'outer-field': Labeled('x', 7)}[pos]
+                            'Tuple': (Labeled('x', 7), 1), 'outer-field': Labeled('x', 7), 'Bag': Bag([Labeled('x', 7)]),
+                            'Dict-of-Bag': {'k': Bag([Labeled('x', 7)])}}[pos]
         inner_inst = InnerUsed.make_unchecked(m=inner_val)
         if inner_wrap == 'List':
             inner_inst = [inner_inst]
